@@ -115,4 +115,282 @@ def convMask (mode : Mode) (a : Arr Int) (conv s1 s2 : List Nat) : Option (Arr I
       let v := List.zipWith validLen s1 s2
       if v.any (· < 0) then none else some (centeredMask c (v.map Int.toNat))
 
+/-! ## `MatchingData._fourier_padding` (tme/matching_data.py): the four-tuple the searches plan with
+
+The numpy code works on whole vectors; true divisions (`np.divide(·, 2)`) produce halves, which the model
+carries as *twice* the value (an integer) until the final `astype(int)` (truncation toward zero). -/
+
+def zip3With {α β γ δ : Type} (f : α → β → γ → δ) : List α → List β → List γ → List δ
+  | a :: as, b :: bs, c :: cs => f a b c :: zip3With f as bs cs
+  | _, _, _ => []
+
+/-- `fourier_pad` per axis: `template * (1 - batch) + batch` with padding, `1 * (1 - batch) + batch` without
+(`batch ∈ {0,1}` is carried as a `Bool`) -/
+def fourierPadAxis (pad : Bool) (m : Nat) (b : Bool) : Nat := if b then 1 else if pad then m else 1
+
+/-- `fourier_shift` before the template-larger-than-target correction: zeros with padding,
+`1 - int(m / 2) - m % 2` without -/
+def baseShift (pad : Bool) (m : Nat) : Int :=
+  if pad then 0 else 1 - ((m / 2 : Nat) : Int) - ((m % 2 : Nat) : Int)
+
+/-- `shape_diff = (target - template) * (1 - batch_mask)` -/
+def shapeDiff (n m : Nat) (b : Bool) : Int := if b then 0 else (n : Int) - m
+
+/-- `offset`: `shape_diff mod 2` (numpy `mod`: result in `{0,1}`), with padding negated after subtracting
+`(target even ∧ template odd)` -/
+def padOffset (pad : Bool) (n m : Nat) (diff : Int) : Int :=
+  let off := diff % 2
+  if pad then -(off - (if n % 2 = 0 ∧ m % 2 = 1 then 1 else 0)) else off
+
+/-- one axis of the returned `fourier_shift`.  `anyNeg` is the vector-wide gate `np.sum(shape_mask)`;
+inside it `shape_shift = (diff / 2 + offset) * shape_mask` and
+`fourier_shift = (fourier_shift - shape_shift).astype(int)` -/
+def shiftAxis (pad anyNeg : Bool) (n m : Nat) (b : Bool) : Int :=
+  let base := baseShift pad m
+  if anyNeg then
+    let diff := shapeDiff n m b
+    let mask : Int := if diff < 0 then 1 else 0
+    Int.tdiv (2 * base - (diff + 2 * padOffset pad n m diff) * mask) 2
+  else base
+
+structure FourierPad where
+  conv : List Nat
+  fast : List Nat
+  ft : List Nat
+  shift : List Int
+deriving Repr, DecidableEq
+
+/-- `MatchingData._fourier_padding(target_shape, template_shape, batch_mask, pad_fourier)` -/
+def fourierPadding (target template : List Nat) (batch : List Bool) (pad : Bool) : FourierPad :=
+  let padShape := List.zipWith max target template
+  let fpad := List.zipWith (fourierPadAxis pad) template batch
+  let conv := convShape padShape fpad
+  let fast := conv.map nextFastLen
+  let diffs := zip3With shapeDiff target template batch
+  let anyNeg := diffs.any (· < 0)
+  ⟨conv, fast, fastFtShape fast, zip3With (shiftAxis pad anyNeg) target template batch⟩
+
+/-! ## `MatchingData._set_matching_dimension`: the shapes and the batch mask `fourier_padding` hands to `_fourier_padding` -/
+
+/-- the loop over the matching dimensions.  `ti` counts the *template* batch axes met so far (the code's `target_index`),
+`pi` the *target* batch axes (`template_index`); every entry is (target extent, template extent, batch flag); extents not
+assigned stay `1`.  `none` stands for the `IndexError` of reading a shape beyond its rank. -/
+def matchLoop (ts ps tdims pdims : List Nat) : Nat → Nat → Nat → Nat → Nat → Option (List (Nat × Nat × Bool))
+  | 0, _, _, _, _ => some []
+  | r + 1, k, ti, pi, col =>
+    let td := k - ti
+    let pd := k - pi
+    if tdims.contains td then
+      if td < ts.length then
+        if ti = pdims.length ∧ 0 < col then
+          if pd < ps.length then
+            (matchLoop ts ps tdims pdims r (k + 1) ti (pi + 1) (col - 1)).map ((ts.getD td 1, ps.getD pd 1, true) :: ·)
+          else none
+        else (matchLoop ts ps tdims pdims r (k + 1) ti (pi + 1) col).map ((ts.getD td 1, 1, true) :: ·)
+      else none
+    else if pdims.contains pd then
+      if pd < ps.length then
+        (matchLoop ts ps tdims pdims r (k + 1) (ti + 1) pi col).map ((1, ps.getD pd 1, true) :: ·)
+      else none
+    else
+      (matchLoop ts ps tdims pdims r (k + 1) ti pi col).map ((ts.getD td 1, ps.getD pd 1, false) :: ·)
+
+structure MatchDims where
+  target : List Nat
+  template : List Nat
+  batch : List Bool
+deriving Repr, DecidableEq
+
+/-- `_set_matching_dimension(target_dims, template_dims)` for distinct, non-negative batch axes (`[]` = `None`):
+`ValueError` when a batch axis is not below the rank -/
+def matchingDims (ts ps tdims pdims : List Nat) : Except String MatchDims :=
+  if tdims.any (fun x => decide (ts.length ≤ x)) ∨ pdims.any (fun x => decide (ps.length ≤ x)) then throw "ValueError" else
+  let meas := ts.length - tdims.length
+  let collapse := ps.length - pdims.length - meas
+  match matchLoop ts ps tdims pdims (meas + (tdims.length + pdims.length)) 0 0 0 collapse with
+  | none => throw "IndexError"
+  | some es => pure ⟨es.map (·.1), es.map (·.2.1), es.map (·.2.2)⟩
+
+/-- `MatchingData.target_padding(pad_target)`: `template - template % 2` per axis (zero on target batch axes), zeros without -/
+def targetPadding (padTarget : Bool) (template : List Nat) (batch : List Bool) : List Nat :=
+  List.zipWith (fun m b => if padTarget then (m - m % 2) * (if b then 0 else 1) else 0) template batch
+
+/-! ## `roll` by the Fourier shift followed by the convolution-mode crop (analyzers' `_postprocess`) -/
+
+/-- numpy `roll(a, shift, axis = all axes)`: `out[i] = a[(i - shift) mod N]` on every axis -/
+def rollIdx (shape : List Nat) (shift : List Int) (idx : List Nat) : List Nat :=
+  zip3With rollSrc shape shift idx
+
+def rollArr {α : Type} (a : Arr α) (shift : List Int) (d : α) : Arr α :=
+  Arr.ofFn a.shape (fun idx => a.getD (rollIdx a.shape shift idx) d)
+
+/-- per-axis (start, extent) of the crop of `apply_convolution_mode` out of convolution shape `conv` -/
+def convCrops (mode : Mode) (conv s1 s2 : List Nat) : Option (List (Nat × Nat)) :=
+  (zip3With (convCrop mode) conv s1 s2).mapM id
+
+/-- `MaxScoreOverRotations._postprocess`: roll by `shift`, cut to the convolution shape, crop for the mode.
+(The leading-corner cut to `conv` is implied by the crop starts and extents lying inside `conv`.) -/
+def postMap {α : Type} (a : Arr α) (shift : List Int) (mode : Mode) (conv s1 s2 : List Nat) (d : α) : Option (Arr α) :=
+  match convCrops mode conv s1 s2 with
+  | none => none
+  | some boxes => some (crop (rollArr a shift d) (boxes.map (·.1)) (boxes.map (·.2)) d)
+
+/-- raw (pre-roll) index that output position `t` of the post-processed map reads on one axis -/
+def postSrc (fast : Nat) (shift : Int) (start : Nat) (t : Nat) : Nat := rollSrc fast shift (start + t)
+
+/-! ## `topk_indices` -/
+
+/-- order used for the selection: larger value first -/
+def geVal (x y : Int × Nat) : Bool := decide (y.1 ≤ x.1)
+
+/-- (value, flat index) pairs of an array -/
+def valIdx (vals : List Int) : List (Int × Nat) := vals.zipIdx
+
+/-- flat indices of the `k` largest values, largest first (`argpartition(-k)[-k:]`, `argsort`, `[::-1]`);
+`none` when `k` exceeds the number of elements (numpy raises `ValueError: kth out of bounds`).  Ties are
+ordered by the sort in use (numpy's introselect / quicksort leave their order unspecified). -/
+def topkFlat (vals : List Int) (k : Nat) : Option (List Nat) :=
+  if vals.length < k ∨ vals.length = 0 then none
+  else some (((valIdx vals).mergeSort geVal).take k |>.map (·.2))
+
+/-- `topk_indices`: the flat indices unravelled, one list per axis (numpy `unravel_index` layout) -/
+def topkIndices (a : Arr Int) (k : Nat) : Option (List (List Nat)) :=
+  (topkFlat a.toList k).map fun fl =>
+    (List.range a.shape.length).map fun ax => fl.map fun f => (unflat a.shape f).getD ax 0
+
+/-! ## `indices` -/
+
+/-- `np.indices(shape)`: array of shape `(ndim, *shape)` whose entry `[a, i₀, …]` is `i_a` -/
+def indicesArr (shape : List Nat) : Arr Nat :=
+  Arr.ofFn (shape.length :: shape) (fun idx => match idx with
+    | a :: rest => rest.getD a 0
+    | [] => 0)
+
+/-! ## `center_of_mass` (integer weights: numerator and denominator of the rational result) -/
+
+/-- `where(arr > cutoff, arr, 0)`; `cutoff = None` stands for `min(arr) - 1`: everything is kept -/
+def keepW (cut : Option Int) (w : Int) : Int :=
+  match cut with
+  | none => w
+  | some c => if c < w then w else 0
+
+/-- `Σ w` over (coordinate, weight) entries after the cutoff -/
+def wSum (cut : Option Int) : List (Nat × Int) → Int
+  | [] => 0
+  | (_, w) :: es => keepW cut w + wSum cut es
+
+/-- `Σ w · x` -/
+def wMoment (cut : Option Int) : List (Nat × Int) → Int
+  | [] => 0
+  | (x, w) :: es => keepW cut w * (x : Int) + wMoment cut es
+
+/-- (coordinate along `axis`, value) of every voxel -/
+def axisEntries (a : Arr Int) (axis : Nat) : List (Nat × Int) :=
+  (allIdx a.shape).map fun idx => (idx.getD axis 0, a.getD idx 0)
+
+/-- `center_of_mass(arr, cutoff)`: per axis the pair (numerator, denominator) of the rational coordinate -/
+def centerOfMass (a : Arr Int) (cut : Option Int) : List (Int × Int) :=
+  (List.range a.shape.length).map fun ax =>
+    let es := axisEntries a ax
+    (wMoment cut es, wSum cut es)
+
+/-! ## `build_fft`: which shapes and axes the two plans are built for -/
+
+structure FftPlan where
+  fwdIn : List Nat      -- shape of the real buffer the forward plan reads
+  fwdOut : List Nat     -- shape of the half spectrum it writes
+  fwdAxes : List Nat
+  invIn : List Nat      -- shape of the complex buffer the inverse plan reads
+  invOut : List Nat     -- real shape it writes (`s = inverse_fast_shape`)
+  invAxes : List Nat
+deriving Repr, DecidableEq
+
+/-- `build_fft(fast_shape, fast_ft_shape, …, inverse_fast_shape=None)`: buffers are allocated with the given shapes,
+`rfftn_builder(temp_real, s=fast_shape)`, `irfftn_builder(temp_fft, s=inverse_fast_shape or fast_shape)`; both over all axes -/
+def buildFft (fast ft : List Nat) (inverse : Option (List Nat)) : Option FftPlan :=
+  let inv := inverse.getD fast
+  -- pyFFTW (`avoid_copy`) refuses an inverse whose half-spectrum shape is not the shape of the complex buffer
+  if fastFtShape inv = ft then
+    some ⟨fast, fastFtShape fast, List.range fast.length, ft, inv, List.range inv.length⟩
+  else none
+
+/-! ## `to_sharedarr` / `from_sharedarr` as (buffer, shape, item size) triples -/
+
+structure Shared where
+  buf : List Nat        -- the bytes of the block (the OS may hand out more than was asked for)
+  shape : List Nat
+  itemsize : Nat
+deriving Repr, DecidableEq
+
+/-- `to_sharedarr`: a block of at least `nbytes` bytes (`slack` extra ones), the array's bytes at its start -/
+def toShared (shape : List Nat) (itemsize : Nat) (bytes : List Nat) (slack : Nat) : Shared :=
+  ⟨bytes ++ List.replicate slack 0, shape, itemsize⟩
+
+/-- `from_sharedarr`: `ndarray(shape, dtype, buffer)` reads the first `prod(shape) * itemsize` bytes -/
+def fromShared (s : Shared) : List Nat := s.buf.take (prodL s.shape * s.itemsize)
+
+/-! ## `max_filter_coordinates` (1-D per axis window arithmetic and the n-D predicate) -/
+
+/-- scipy `maximum_filter(size = s, mode = "nearest")` footprint on one axis: offsets `-(s/2) … s - 1 - s/2`,
+positions outside the array clamped to the border -/
+def clampIdx (n : Nat) (i : Int) : Nat := if i < 0 then 0 else min i.toNat (n - 1)
+
+def windowAxis (n s i : Nat) : List Nat :=
+  (List.range s).map fun (j : Nat) => clampIdx n ((i : Int) - ((s / 2 : Nat) : Int) + (j : Int))
+
+/-- all multi-indices of the (clamped) window around `idx` -/
+def windowIdx : List Nat → Nat → List Nat → List (List Nat)
+  | n :: ns, s, i :: is => (windowAxis n s i).flatMap fun x => (windowIdx ns s is).map (x :: ·)
+  | _, _, _ => [[]]
+
+/-- a voxel is reported when no voxel of its window is larger -/
+def isPeak (a : Arr Int) (s : Nat) (idx : List Nat) : Bool :=
+  (windowIdx a.shape s idx).all fun j => decide (a.getD j 0 ≤ a.getD idx 0)
+
+/-- `max_filter_coordinates(score_space, min_distance)`: coordinates (row-major order, as `np.nonzero`) -/
+def maxFilterCoordinates (a : Arr Int) (s : Nat) : List (List Nat) :=
+  (allIdx a.shape).filter (isPeak a s)
+
+/-! ## `_rigid_transform_matrix`: integer part (inverse rotation given, integer centre and translation) -/
+
+/-- `out_i = Σ_j M_ij v_j` -/
+def dot : List Int → List Int → Int
+  | a :: as, b :: bs => a * b + dot as bs
+  | _, _ => 0
+
+def matVec (M : List (List Int)) (v : List Int) : List Int := M.map fun row => dot row v
+
+/-- offset column of `T(-t) · C(c) · R⁻¹ · C(-c)`: `-t + c - R⁻¹ c` -/
+def rigidOffset (rinv : List (List Int)) (c t : List Int) : List Int :=
+  zip3With (fun ti ci ri => -ti + ci - ri) t c (matVec rinv c)
+
+/-- the affine map `x ↦ R⁻¹ x + offset` the matrix stands for -/
+def rigidApply (rinv : List (List Int)) (c t x : List Int) : List Int :=
+  List.zipWith (· + ·) (matVec rinv x) (rigidOffset rinv c t)
+
+/-- homogeneous matrices, as the code builds them -/
+def matMul (A B : List (List Int)) : List (List Int) :=
+  A.map fun row => (List.range (B.headD []).length).map fun j =>
+    (List.zipWith (fun a brow => a * brow.getD j 0) row B).foldl (· + ·) 0
+
+def identM (n : Nat) : List (List Int) :=
+  (List.range n).map fun i => (List.range n).map fun j => if i = j then 1 else 0
+
+/-- identity with `v` in the last column (`M[:ndim, ndim] = v`) -/
+def translM (v : List Int) : List (List Int) :=
+  let n := v.length
+  (List.range (n + 1)).map fun i => (List.range (n + 1)).map fun j =>
+    if i = j then 1 else if j = n ∧ i < n then v.getD i 0 else 0
+
+/-- identity with `R` in the leading block -/
+def linM (R : List (List Int)) : List (List Int) :=
+  let n := R.length
+  (List.range (n + 1)).map fun i => (List.range (n + 1)).map fun j =>
+    if i < n ∧ j < n then (R.getD i []).getD j 0 else if i = j then 1 else 0
+
+/-- `_rigid_transform_matrix(rotation_matrix, translation, center)` with `rinv = inv(rotation_matrix)`:
+`I · T(-t) · C(c) · R⁻¹ · C(-c)` (the final division by the corner entry `1` changes nothing) -/
+def rigidMatrix (rinv : List (List Int)) (c t : List Int) : List (List Int) :=
+  matMul (matMul (matMul (matMul (identM (c.length + 1)) (translM (t.map (- ·)))) (translM c)) (linM rinv)) (translM (c.map (- ·)))
+
 end Pm.C13
